@@ -4,6 +4,8 @@ ILLEGAL = [
  ('two_times', 'REQUIRE_CALL(m, f(_)).TIMES(1).TIMES(2).RETURN(0);', 'Only one TIMES call limit is allowed'),
  ('two_rt_times', 'REQUIRE_CALL(m, f(_)).RT_TIMES(1).RT_TIMES(2).RETURN(0);', 'Only one RT_TIMES call limit is allowed'),
  ('times_then_rt_times', 'REQUIRE_CALL(m, f(_)).TIMES(1).RT_TIMES(2).RETURN(0);', 'Only one RT_TIMES call limit is allowed'),
+ ('times0_then_times', 'REQUIRE_CALL(m, f(_)).TIMES(0).TIMES(2);', 'Only one TIMES call limit is allowed'),
+ ('times0_then_rt_times', 'REQUIRE_CALL(m, f(_)).TIMES(0).RT_TIMES(2);', 'Only one RT_TIMES call limit is allowed'),
  ('times_low_above_high', 'REQUIRE_CALL(m, f(_)).TIMES(3, 2).RETURN(0);', 'In TIMES the first value must not exceed the second'),
  ('two_in_sequence', 'REQUIRE_CALL(m, f(_)).IN_SEQUENCE(seq).IN_SEQUENCE(seq2).RETURN(0);', 'Multiple IN_SEQUENCE does not make sense'),
  ('forbidden_in_sequence', 'REQUIRE_CALL(m, f(_)).TIMES(0).IN_SEQUENCE(seq);', 'IN_SEQUENCE for forbidden call does not make sense'),
